@@ -173,7 +173,7 @@ def judge_user(case, rep, S):
         images = rng.sample(list(M.AA), rng.randint(1, 6))
         ua = {a: rng.choice(images) for a in M.AA}
         kind = rng.choice(["total", "total", "total_with_extras", "bijection", "partial", "replaced_key", "lower_value", "non_aa_value",
-                           "non_dict", "wrong_type_value", "aa_onto_extra_key", "two_bad_values", "no_residue_keys", "total_with_word_keys"])
+                           "non_dict", "wrong_type_value", "aa_onto_extra_key", "two_bad_values", "no_residue_keys", "total_with_word_keys", "grouped_keys"])
         if kind == "bijection":
             letters = list(M.AA)
             rng.shuffle(letters)
@@ -255,6 +255,15 @@ def judge_user(case, rep, S):
                 bad[extra] = rng.choice([extra, rng.choice(list(M.AA))])
                 bad[rng.choice(list(seq)) if rng.random() < 0.7 else rng.choice(list(M.AA))] = extra
                 rep.cnt("amino_acid_mapped_onto_extra_key")
+            elif kind == "grouped_keys":
+                # some residues are missing; multi-letter keys spelling exactly those residues do not make up for them
+                gone_ = rng.sample(list(M.AA), rng.randint(2, 5))
+                for a_ in gone_:
+                    del bad[a_]
+                rng.shuffle(gone_)
+                pieces_ = ["".join(gone_)] if len(gone_) < 4 else ["".join(gone_[:2]), "".join(gone_[2:])]
+                for grp_ in pieces_:
+                    bad[grp_] = rng.choice(list(M.AA))
             elif kind == "two_bad_values":
                 # two invalid values whose lengths add up to two valid ones
                 k1, k2 = rng.sample(list(M.AA), 2)
